@@ -79,7 +79,7 @@ def run(run):
                        'os.urandom is not observable; only length and '
                        'freshness are judged']
     rng = run.rng('c18')
-    n_cases = 400 if thorough else 60
+    n_cases = 1600 if thorough else 80
     for i in range(n_cases):
         secret = [bytes(16), b'\xff' * 16][i] if i < 2 else \
             bytes(rng.getrandbits(8) for _ in range(16))
